@@ -573,8 +573,13 @@ func (m *c07Mon) onHandover(c *ctx, w *hWorld, st *c07World, sr *stepResult, pre
 	n := new(big.Int).SetBytes(cs.Args[1]).Uint64()
 	na := acctOf(post, cs.Rcpt)
 	c.count("C07/handover/next-owner/" + []string{"tx", "sys", "deliver", "redeliver", "refund"}[sr.Op.Kind])
-	if counterOf(na, tok) != n || (n == 0) != (len(counterRaw(na, tok)) == 0) || roleCount(na, tok, roleCreate) == 0 {
-		fail("handover-delivery", string(tok), fmt.Sprintf("delivered hand-over of %q with counter %d: new holder %x has counter %x, create role %v", tok, n, cs.Rcpt, counterRaw(na, tok), roleCount(na, tok, roleCreate) > 0))
+	// the counter after a delivery is the shipped one; an implementation that keeps a higher counter the account already
+	// has (a repeated delivery after creates) also continues after the highest nonce: both are accepted here, the regression
+	// of F9 shows up as a re-issued nonce
+	had := counterOf(acctOf(pre, cs.Rcpt), tok)
+	got := counterOf(na, tok)
+	if !(got == n || (had > n && got == had)) || (got == 0) != (len(counterRaw(na, tok)) == 0) || roleCount(na, tok, roleCreate) == 0 {
+		fail("handover-delivery", string(tok), fmt.Sprintf("delivered hand-over of %q with counter %d: new holder %x had counter %d, now has %x, create role %v", tok, n, cs.Rcpt, had, counterRaw(na, tok), roleCount(na, tok, roleCreate) > 0))
 	}
 	// re-delivery with no create in between (counter still as shipped, role still there) changes nothing
 	pa := acctOf(pre, cs.Rcpt)
@@ -1095,10 +1100,10 @@ func init() {
 		c.smallHistFiles(4)
 		quick := !(c.thorough() || c.widen)
 		r := &c07Run{c: c, u: u, budget: &caseBudget{max: 1500}}
-		nv, nRand, nHist, nOps, walkW, walkOps := 4, 40, 8, 120, 3, 120
+		nv, nRand, nHist, nOps, walkW, walkOps := 4, 80, 8, 120, 3, 120
 		if !quick {
 			r.budget.max = 12000
-			nv, nRand, nHist, nOps, walkW, walkOps = 12, 600, 60, 160, 20, 300
+			nv, nRand, nHist, nOps, walkW, walkOps = 12, 1500, 60, 160, 20, 300
 		}
 		for v := 0; v < nv; v++ {
 			r.famBurnTransfer(v)
